@@ -18,6 +18,7 @@ func (x *counters) Add(addr oid.Address, size uint64) {
 	x.mu.Lock()
 	defer x.mu.Unlock()
 
+	x.size -= x.objMap[addr] // repeated put of the same address must not be counted twice
 	x.size += size
 	x.objMap[addr] = size
 }
